@@ -56,14 +56,15 @@ Type(w) ==
     /\ hist' = Append(hist, [op |-> "type", cfg |-> cfg, file |-> file, w |-> w])
     /\ UNCHANGED <<cfg, file, stamp, loaded, loadedAt, phase>>
 
-\* the user edits the auto-correct file (content change, newer modification time)
+\* the user edits the auto-correct file: an entry is added, changed or REMOVED (content change, newer modification time)
 Edit(w) ==
     /\ phase \in {"pre", "edit"}
-    /\ file[w] < 2
     /\ Cardinality({i \in 1..Len(hist) : hist[i].op = "edit"}) < MaxEdits
-    /\ file' = [file EXCEPT ![w] = @ + 1] /\ stamp' = stamp + 1
+    /\ \E v \in 0..2 :
+          /\ v # file[w]
+          /\ file' = [file EXCEPT ![w] = v] /\ stamp' = stamp + 1
+          /\ hist' = Append(hist, [op |-> "edit", cfg |-> cfg, file |-> file', w |-> w])
     /\ phase' = "edit"
-    /\ hist' = Append(hist, [op |-> "edit", cfg |-> cfg, file |-> file', w |-> w])
     /\ UNCHANGED <<cfg, loaded, loadedAt, memo>>
 
 \* update_engine (idle): a changed layout replaces the method object; otherwise the phonetic method reloads
